@@ -325,6 +325,23 @@ impl Iterator for ClosestBucketsIter {
     }
 }
 
+/// Verification hooks: read accessors.
+#[cfg(feature = "verif")]
+impl RoutingTable {
+    pub fn verif_num_buckets(&self) -> usize {
+        self.buckets.len()
+    }
+
+    pub fn verif_bucket(&self, index: usize) -> &[KademliaPeer] {
+        self.buckets[index].verif_nodes()
+    }
+
+    /// Bucket indices in the order `closest()` visits them for `target`.
+    pub fn verif_bucket_order<K: Clone>(&self, target: &Key<K>) -> Vec<usize> {
+        ClosestBucketsIter::new(self.local_key.distance(&target)).map(|index| index.get()).collect()
+    }
+}
+
 #[cfg(test)]
 mod tests {
     use super::*;
